@@ -413,8 +413,15 @@ func ExtractRule(ctx *Context, fact Map, required bool) (Map, error) {
 			expires, have := fact["expires"]
 			Log(DEBUG, ctx, "ExtractRule", "expires", expires)
 			if have {
-				// ToDo: Probably shouldn't modify given fact this way.
-				vv["expires"] = expires
+				// The fact is shared (it is what the state
+				// holds), and we are called by readers, so the
+				// expiration goes into a copy of the rule.
+				withExpires := make(map[string]interface{}, len(vv)+1)
+				for p, v := range vv {
+					withExpires[p] = v
+				}
+				withExpires["expires"] = expires
+				return withExpires, nil
 			}
 			return vv, nil
 		default:
